@@ -26,6 +26,7 @@ import (
 	"go.uber.org/zap"
 
 	"github.com/mimiro-io/datahub/internal/conf"
+	"github.com/mimiro-io/datahub/internal/jobs"
 	"github.com/mimiro-io/datahub/internal/jobs/source"
 	"github.com/mimiro-io/datahub/internal/server"
 )
@@ -44,6 +45,15 @@ type VerifC15Case struct {
 	GetFirst bool     `json:"getfirst"` // http mode: a GET (entities and changes) right after dataset creation and again after the first POST
 	Pages    []string `json:"pages"`    // source mode: the documents one HTTPDatasetSource object reads, in order
 	Body2Txn bool     `json:"body2txn"` // http mode: the second POST goes to /transactions
+	// http mode: instead of POSTing Body2, build entities the way the JavaScript API does (AsEntity ->
+	// NewEntityFromMap on each map; "carrier" != "": attach the result as a property of a new entity with that id)
+	// and store them like a transform + dataset sink; Body2 is the equivalent UDA payload (what the model expects)
+	AsEntity []VerifC15Map `json:"asentity"`
+}
+
+type VerifC15Map struct {
+	M       map[string]interface{} `json:"m"`
+	Carrier string                 `json:"carrier"`
 }
 
 type VerifC15Parse struct {
@@ -516,7 +526,35 @@ func (d *VerifC15Driver) runHTTP(c VerifC15Case, body []byte) *VerifC15Obs {
 		post2.Tokens, post2.EOF = verifC15Tokens(b2)
 		obs.Post2 = post2
 		var pb2 []byte
-		if c.Body2Txn {
+		if len(c.AsEntity) > 0 {
+			obs.Status2 = 200
+			func() {
+				defer func() {
+					if r := recover(); r != nil {
+						obs.Status2 = 500
+						obs.Detail = fmt.Sprint(r)
+					}
+				}()
+				jt := &jobs.JavascriptTransform{}
+				out := make([]*server.Entity, 0)
+				for _, am := range c.AsEntity {
+					ent := jt.AsEntity(am.M)
+					if am.Carrier != "" {
+						ce := server.NewEntity(am.Carrier, 0)
+						ce.Properties["ns3:address"] = ent
+						out = append(out, ce)
+					} else if ent != nil {
+						out = append(out, ent)
+					}
+				}
+				if len(out) > 0 {
+					if err := dsm.GetDataset(names[0]).StoreEntities(out); err != nil {
+						obs.Status2 = 599
+						obs.Detail = err.Error()
+					}
+				}
+			}()
+		} else if c.Body2Txn {
 			obs.Status2, pb2 = verifC15Do(e, http.MethodPost, "/transactions", b2)
 		} else {
 			obs.Status2, pb2 = verifC15Do(e, http.MethodPost, "/datasets/"+names[0]+"/entities", b2)
